@@ -13,4 +13,12 @@ LEVELS = {
   'text': 'Proof (listing): for every table the model of get_sorted_lifecycles_as_vec is a permutation of the table (each lifecycle once), can always be produced (total sort key), is ordered by start time when no resume exists, and never lists a resumed lifecycle before its origin (C07_listing_*). Table-vs-messages part: the executable statement Spec.C07 (ids listed once, every delivered id listed with its ECU, exact counts, no unreferenced entry, counts sum to the number of messages) is evaluated on the implementation\'s output of every generated stream, and model==impl is checked on the table; its Lean proof over the detector model is work in progress (see DESIGN.md).',
   'note': 'Trusted: Lean kernel; model tied by correspondence; Rust slice::sort_by_cached_key as a stable sort by a totally ordered key; evmap; the theorem C07_listing_resume assumes the origin has the smaller id (checked by the oracle on every implementation table).',
  },
+ 'C01': {
+  'text': 'Proof (per message / per garbage byte): for every well-formed message (all header-flag combinations, both byte orders, any payload up to the 16-bit limit, any id/counter bytes) followed by any bytes on which the corruption heuristic does not fire, the model of parse_dlt_with_storage_header / _serial_header returns exactly that message (every header field, every payload byte) and consumes exactly its length; at any non-marker offset the parsers answer invalid (one byte skipped). The whole-stream statement (exact message list, consecutive indices, skipped = garbage, processed <= input) is the executable Spec.C01, evaluated on the implementation output for every generated in-range stream; its inductive proof over the iterator model is being added.',
+  'note': 'Trusted: Lean kernel; model tied to DltMessageIterator over a Cursor by the differential run (0 disagreements required); header-size constants regenerated from the Rust sources (C01_consts).',
+ },
+ 'C02': {
+  'text': 'Proof of the re-parse step (a written well-formed message parses back consuming exactly its bytes, from the C01 lemma) plus evaluation of the full executable round-trip statement Spec.C02one (fields preserved, bytes consumed = bytes written, second write byte-identical) on the bytes DltMessage::to_write really produced, for every message of every generated stream; model toWrite == implementation bytes is part of the correspondence.',
+  'note': 'Trusted: Lean kernel; model tied by the differential run; the theorem relating toWrite to a well-formed raw message (normal form) is being added; messages outside the property range (storage micros >= 10^6) are generated but skipped by the oracle.',
+ },
 }
